@@ -202,3 +202,67 @@ func (p *Program) allCallSites(pred func(*types.Func) bool) []ssa.CallInstructio
 	sort.Slice(out, func(i, j int) bool { return out[i].Pos() < out[j].Pos() })
 	return out
 }
+
+// onlyCalledFrom: f is allowed itself, or f is a plain helper (not a goroutine/closure
+// entry) all of whose static call sites in first-party code are in functions that are
+// allowed or, recursively, only called from allowed functions. Lets "who may do X"
+// rules accept a helper extracted from an allowed function.
+func (p *Program) onlyCalledFrom(f *ssa.Function, allowed func(*ssa.Function) bool, depth int) bool {
+	if allowed(f) {
+		return true
+	}
+	if depth > 3 || f.Parent() != nil {
+		return false
+	}
+	nSites := 0
+	for _, g := range p.SrcFuncs {
+		if !p.FirstParty(g) || p.IsTestPos(rootFunc(g).Pos()) {
+			continue
+		}
+		for _, b := range g.Blocks {
+			for _, ins := range b.Instrs {
+				ci, ok := ins.(ssa.CallInstruction)
+				if !ok || ci.Common().StaticCallee() != f {
+					continue
+				}
+				// started as a goroutine or deferred: a different execution context
+				if _, isGo := ci.(*ssa.Go); isGo {
+					return false
+				}
+				nSites++
+				if g.Parent() != nil {
+					// called from a closure: only fine if the closure's root is the caller we accept and the closure is not a goroutine body; be conservative
+					return false
+				}
+				if !p.onlyCalledFrom(g, allowed, depth+1) {
+					return false
+				}
+			}
+		}
+	}
+	// a function value taken (method value / passed around) is not tracked: require at least one static site
+	return nSites > 0
+}
+
+// reachesStatic: from (or a first-party function it calls statically, up to depth) satisfies pred.
+func (p *Program) reachesStatic(from *ssa.Function, pred func(*ssa.Function) bool, depth int) bool {
+	if from == nil {
+		return false
+	}
+	if pred(from) {
+		return true
+	}
+	if depth <= 0 || !p.FirstParty(from) {
+		return false
+	}
+	for _, b := range from.Blocks {
+		for _, ins := range b.Instrs {
+			if ci, ok := ins.(ssa.CallInstruction); ok {
+				if g := ci.Common().StaticCallee(); g != nil && g != from && p.reachesStatic(g, pred, depth-1) {
+					return true
+				}
+			}
+		}
+	}
+	return false
+}
